@@ -117,3 +117,35 @@ def Ty.zeroSize : Ty → Bool
   | _ => false
 
 end KV.Codec
+
+namespace KV.Codec
+
+mutual
+theorem Ty.eq_of_beq : ∀ (a b : Ty), Ty.beq a b = true → a = b
+  | .bool, b, h | .int8, b, h | .int16, b, h | .int32, b, h | .int64, b, h | .float64, b, h | .records, b, h => by
+    cases b <;> simp [Ty.beq] at h <;> rfl
+  | .unit f, b, h => by cases b <;> simp [Ty.beq] at h; simp [h]
+  | .string c n, b, h => by cases b <;> simp [Ty.beq] at h; simp [h]
+  | .bytes c n, b, h => by cases b <;> simp [Ty.beq] at h; simp [h]
+  | .array c n e, b, h => by
+    cases b <;> simp [Ty.beq] at h
+    rename_i c' n' e'
+    have := Ty.eq_of_beq e e' h.2
+    simp [h.1, this]
+  | .struct f fs is ts, b, h => by
+    cases b <;> simp [Ty.beq] at h
+    rename_i f' fs' is' ts'
+    have h1 := Ty.eqList_of_beq fs fs' h.1.1.2
+    have h2 := Ty.eqList_of_beq ts ts' h.2
+    simp [h.1.1.1, h.1.2, h1, h2]
+theorem Ty.eqList_of_beq : ∀ (a b : List Ty), Ty.beqList a b = true → a = b
+  | [], b, h => by cases b <;> simp [Ty.beqList] at h; rfl
+  | x :: xs, b, h => by
+    cases b with
+    | nil => simp [Ty.beqList] at h
+    | cons y ys =>
+      simp only [Ty.beqList, Bool.and_eq_true] at h
+      rw [Ty.eq_of_beq x y h.1, Ty.eqList_of_beq xs ys h.2]
+end
+
+end KV.Codec
